@@ -13,12 +13,14 @@ SFC = ['PRSS', 'T02M', 'SHGT']
 LAY = ['TEMP', 'UWND', 'VWND']
 
 
-def gen(rng):
+def gen(rng, small=None):
     nx, ny = rng.randint(20, 24), rng.randint(17, 19)      # the index record and the reader's LENH-sized read must fit into one record
-    if rng.random() < 0.25:
+    if small is not None:
+        nx, ny = rng.choice([(small, 1200), (1090, small)])
+    elif rng.random() < 0.25:
         # 1000 or more points in one direction: the thousands travel as a letter in the two-character grid id
         # (CHAR(n/1000 + 64): '@' = 0, 'A' = 1000, 'B' = 2000), the header holds n mod 1000
-        big, small = rng.choice([1003, 1200, 2048, 1090]), rng.randint(3, 5)
+        big, small = rng.choice([1003, 1200, 2048, 1090]), rng.randint(2, 5)      # two columns or rows at least
         nx, ny = (big, small) if rng.random() < 0.5 else (small, big)
     nlev = rng.randint(2, 3)                       # surface + upper levels
     sfc = rng.sample(SFC, rng.randint(1, 2))
